@@ -54,3 +54,20 @@ def valid_candidates(rng: random.Random, n: int) -> List[str]:
                 q += qg.segments(1, True, rng.choice([1, 2]))
             out.append(q)
     return out
+
+
+LITERAL_BODIES = ["", "a", "\\b\\f\\n\\r\\t\\/\\\\", "\\'", '\\"', "\\a", "\\x41", "\\0", "\\u", "\\u0", "\\u00", "\\u004", "\\u004g", "\\U0041",
+                  "\\u 041", "\\", "\\\\\\", "a\\", "\t", "\n", "\x00", "\x1f", "\x7f", "'", '"', "a'b", 'a"b', "é😀", "\\u00e9\\ud83d\\uDE00",
+                  "\\ud83d", "\\uD83D", "\\uDBFF", "\\ude00", "\\ud83d\\ud83d\\ude00", "x\\u0000y", "\\u0000", "\\u001F", "\\ud83d\\", "\\ud83d\\u",
+                  "\\ud83d\\ude0", "\\ud83d\\ude00", "\\ud83dx", "\\uD800\\uDC00", "\\uDBFF\\uDFFF", "\\uD83D\\uDE00\\uD83D\\uDE00", "\\u+041", "\\u0_41",
+                  "\\u0x41", "\\u００４１", "\\u041 ", "a\\ud83d", "\\udc00\\ud800", "\\ud800\\ud800", "\\e", "\\N", "\\ "]
+
+
+def literal_queries():
+    """Queries exercising string literals at the very end of the text and in every position."""
+    out = []
+    for body in LITERAL_BODIES:
+        for q in "'\"":
+            lit = q + body + q
+            out += [f"$[{lit}]", f"$[?@ == {lit}]", f"$[?@.a == {lit} && @.b]", f"$[{lit}, 0]", f"$[?match(@, {lit})]", f"$[{lit}", f"$[?@ == {lit}"]
+    return out
